@@ -151,6 +151,8 @@ func runStream(cd int64, clock int, wire [][]byte) Val {
 	for _, f := range fr {
 		out = append(out, L(I(int64(f.MediaType)), I(f.Pts), B(f.Payload)))
 	}
+	// the stream's shared video metadata after the run
+	out = append(out, L(I(97), I(0), B(vm.Vps)), L(I(98), I(0), B(vm.Sps)), L(I(99), I(0), B(vm.Pps)))
 	if readErr != "" {
 		out = append(out, S("!readerr "+readErr))
 	}
